@@ -156,6 +156,10 @@ func (e *EDNS) ServeDNS(ctx context.Context, ch *middleware.Chain) {
 	if opt.Version() != 0 {
 		ednsErrorBadVersion.Inc()
 		opt.SetVersion(0)
+		// The reply reuses this OPT. SetEdns0 may have re-attached the
+		// client's (clamped) subnet for forwarding; nothing is forwarded
+		// here, and no ECS option may ever be returned to a client.
+		opt.Option = nil
 
 		ch.CancelWithRcode(dns.RcodeBadVers, do)
 
